@@ -37,6 +37,20 @@ def domain_digest(domain):
     return hashlib.sha1("\n".join(parts).encode()).hexdigest()[:16]
 
 
+def used_states(dom, case, states):
+    """for cases marked use_first: the states an operator is used on before its grounding is reported - the case's
+    states and one without any fact (no entry for any predicate)"""
+    if not case.get("use_first"):
+        return ()
+    out = list(states.values())
+    try:
+        fl = case["states"][0]["fl"] if case["states"] else []
+        out.insert(0, pylib.mk_state_via_problem(dom, case["objs"], [], fl)[0])
+    except Exception:  # noqa: BLE001
+        pass
+    return out
+
+
 def run_case(case, layout_seed=None, snaps=True):
     ev = []
     hist = {"id": case["id"], "ev": ev}
@@ -68,24 +82,36 @@ def run_case(case, layout_seed=None, snaps=True):
             return hist
     nxt = 0
     seen_calls = set()
+    opcache = {}
     for call in case["calls"]:
         key = (call["act"], tuple(call["args"]))
         if key not in seen_calls and case.get("ground", True):
             seen_calls.add(key)
             ev.append({"c": "Ground", "d": "d", "u": "u", "act": call["act"], "args": call["args"],
-                       "out": pylib.observe_grounding(dom, call["act"], call["args"], objects)})
+                       "out": pylib.observe_grounding(dom, call["act"], call["args"], objects,
+                                                      used_on=used_states(dom, case, states))})
         sh = f"s{call['s']}" if isinstance(call["s"], int) else call["s"]
         if sh not in states:
             continue
         if call["mode"] == "ground":
             continue
+        op = None
+        if case.get("reuse_op"):
+            # one Operator object per distinct call serves every query and transition of the case: what it answers
+            # for a state does not depend on the states it has been used on before
+            if key not in opcache:
+                try:
+                    opcache[key] = pylib.new_operator(dom, call["act"], call["args"], objects)
+                except Exception:  # noqa: BLE001
+                    opcache[key] = None
+            op = opcache[key]
         if call["mode"] == "app":
-            out = pylib.observe_applicable(dom, call["act"], call["args"], objects, states[sh])
+            out = pylib.observe_applicable(dom, call["act"], call["args"], objects, states[sh], op=op)
             ev.append({"c": "IsApplicable", "d": "d", "u": "u", "act": call["act"], "args": call["args"],
                        "s": sh, "out": out})
         else:
             out, new_state = pylib.observe_apply(dom, call["act"], call["args"], objects, states[sh],
-                                                 allow=call.get("allow", False), skip=call.get("skip", False))
+                                                 allow=call.get("allow", False), skip=call.get("skip", False), op=op)
             nxt += 1
             h = f"n{nxt}"
             ev.append({"c": "Apply", "d": "d", "u": "u", "act": call["act"], "args": call["args"], "s": sh,
